@@ -948,6 +948,21 @@ func (fx *FuncExec) evalSpecCall(env *SpecEnv, x *ast.CallExpr) Val {
 			return bv("true")
 		}
 		return bv("false")
+	case "calledbefore":
+		// calledbefore("callee"), in an `at call` clause: the callee had been called before THIS call
+		// (for the call's own callee: not counting the call the clause is attached to)
+		lit, ok := x.Args[0].(*ast.BasicLit)
+		if !ok {
+			fx.specFail(env, "calledbefore(\"callee name\")")
+		}
+		nm, _ := strconv.Unquote(lit.Value)
+		if nm == fx.curCallShort {
+			return bv(fx.curCallPrev)
+		}
+		if h, ok := env.state().called[nm]; ok {
+			return bv(h)
+		}
+		return bv("false")
 	case "called":
 		// called("callee"): a call to that callee (at-call naming) has been executed on this path
 		lit, ok := x.Args[0].(*ast.BasicLit)
